@@ -192,26 +192,71 @@ def report_trace(ctx, name: str, trace: Trace, mon: Monitored, clauses, meta: di
         ctx.disagreement(name + ':' + p['kind'], {**p, 'labels': labels_repr(labels)[:1500]})
 
 
+class CaseEval:
+    """Evaluation of a batch of traces by Coq (chk_trace), started in a
+    background thread so that the next batch can run on the server meanwhile;
+    `finish` (main thread) books the result into ctx exactly like
+    ctx.run_cases and reports disagreements."""
+
+    def __init__(self, ctx, name: str, traces: list[Trace], *, shard: int = 10, jobs: int = 12) -> None:
+        import threading
+        from . import coqrun
+        self.ctx = ctx
+        self.name = name
+        self.traces = traces
+        self.cases = [SE.enc_case(t.setup, t.steps) for t in traces]
+        self.res = None
+        self.exc = None
+
+        def work():
+            try:
+                self.res = coqrun.run_cases(ctx.prop, name, SE.HEADER, 'trace_case', self.cases,
+                                            'chk_trace', shard=shard, jobs=jobs)
+            except BaseException as exc:   # reported in finish
+                self.exc = exc
+        self.thread = threading.Thread(target=work, daemon=True)
+        if self.cases:
+            self.thread.start()
+
+    def finish(self) -> list[int]:
+        from . import coqrun
+        ctx = self.ctx
+        if not self.cases:
+            return []
+        self.thread.join()
+        if self.exc is not None:
+            ctx.broken.append(f'correspondence {self.name}: evaluation crashed: {self.exc!r}')
+            return []
+        res = self.res
+        ctx.traces_validated += res['n'] - len(res['bad'])
+        entry = {'name': self.name, 'cases': res['n'], 'disagreements': len(res['bad']),
+                 'wall_s': res['wall_s']}
+        ctx.corr.append(entry)
+        if res['errors']:
+            entry['errors'] = res['errors'][:3]
+            ctx.broken.append(f'correspondence {self.name}: case file did not evaluate: '
+                              + res['errors'][0][-800:])
+        bad = res['bad']
+        for b in bad[:4]:
+            t = self.traces[b]
+            fb = coqrun.eval_term(ctx.prop, 'fb', SE.HEADER, f'first_bad {self.cases[b]}')
+            import re
+            m = re.search(r'Some (\d+)', fb)
+            detail = {'labels': labels_repr(t.labels())[:3000]}
+            if m:
+                k = int(m.group(1))
+                dg = coqrun.eval_term(ctx.prop, 'dg', SE.HEADER, f'diag {self.cases[b]} {k}%nat')
+                mo = coqrun.eval_term(ctx.prop, 'mo', SE.HEADER, f'model_out {self.cases[b]} {k}%nat')
+                detail.update({'first_bad_step': k, 'label': repr(t.steps[k][0]),
+                               'impl_responses': repr(t.steps[k][1]),
+                               'which (label_ok, responses, selections, mailboxes)': dg[-60:],
+                               'model': ' '.join(mo.split())[:1500]})
+            ctx.disagreement(self.name, detail)
+        return bad
+
+
 def evaluate_cases(ctx, name: str, traces: list[Trace], *, shard: int = 10) -> list[int]:
-    cases = [SE.enc_case(t.setup, t.steps) for t in traces]
-    bad = ctx.run_cases(name, SE.HEADER, 'trace_case', cases, 'chk_trace', shard=shard, jobs=14)
-    from . import coqrun
-    for b in bad[:4]:
-        t = traces[b]
-        fb = coqrun.eval_term(ctx.prop, 'fb', SE.HEADER, f'first_bad {cases[b]}')
-        import re
-        m = re.search(r'Some (\d+)', fb)
-        detail = {'labels': labels_repr(t.labels())[:3000]}
-        if m:
-            k = int(m.group(1))
-            dg = coqrun.eval_term(ctx.prop, 'dg', SE.HEADER, f'diag {cases[b]} {k}%nat')
-            mo = coqrun.eval_term(ctx.prop, 'mo', SE.HEADER, f'model_out {cases[b]} {k}%nat')
-            detail.update({'first_bad_step': k, 'label': repr(t.steps[k][0]),
-                           'impl_responses': repr(t.steps[k][1]),
-                           'which (label_ok, responses, selections, mailboxes)': dg[-60:],
-                           'model': ' '.join(mo.split())[:1500]})
-        ctx.disagreement(name, detail)
-    return bad
+    return CaseEval(ctx, name, traces, shard=shard).finish()
 
 
 def run_sync(coro):
